@@ -16,6 +16,19 @@ Answers
   with the original), `u<oid>` (dangling)
 * tree dump (identity-free): nested terms `<cls/m/v,v/k=v,k=v>`
 
+* `hist <builtins> <op>…` (the `deap.creator` namespace between dumps and loads): `<builtins>` =
+  `;`-separated `name/kind` (classes that pickle by reference; they open every class table); ops
+  `c/<name>/<kind>/<inst>/<cls>` (`creator.create`; `inst` = `attr=@<name>` (the class bound to that
+  name now) or `attr=#<i>` (by-reference class `i`), `cls` = `attr=<int>`), `d/<name>` (`del`),
+  `o/<slot>/<i>/<items>` (an instance of by-reference class `i`), `n/<slot>/<name>/<items>` (an
+  instance of the class bound to `name`; items `a<int>` or `s<slot>`), `s/<slot>/<attr>/<items>`
+  (replace the items of the object the attribute refers to), `v/<slot>/<attr>/<val>` (set an
+  attribute of the object itself), `p/<slot>` (dump), `l/<k>` (load dump `k`).  Answer: for every load the
+  loaded graph as a nested term whose classes are printed as identity-free descriptions
+  `[name:kind:attr=DESC+…:attr=val,…]`, then `NS:` the bound names with the descriptions of their classes.
+* `gp <nodes> <args> <mapping> <history> <tree>`: `renameArguments` history, then the pickle round
+  trip of the tree's nodes; nodes `P/name/arity/args/ret/seq` or `T/name/value/ret/conv` (`-` = unset).
+
 Operations: `clone <ct> <heap> <root> <k>`, `pickle <ct> <heap> <root> same|empty`,
 `create <ct> <cls> <items> <count>`, `createclone <ct> <cls> <items>` (one instance created in the
 empty heap, then cloned; graph dump of the clone relative to the heap after the creation, so the
@@ -124,6 +137,172 @@ def parseKw (s : String) : Option (List (Name × Int)) := parseList (parsePair p
 def showKw (l : List (Name × Int)) : String :=
   showList (fun (p : Name × Int) => toString p.1 ++ "=" ++ toString p.2) l
 
+/-! ### `hist`: the namespace between dumps and loads -/
+
+def showKind : Kind → String
+  | .plain => "plain" | .ctor => "ctor" | .fitness => "fitness" | .cfitness => "cfitness"
+  | .tree => "tree" | .nparr => "nparr" | .pyarr => "pyarr" | .node => "node"
+
+def showAtomVal : Val → String
+  | .atom a => "a" ++ toString a
+  | .ref x => "r" ++ toString x
+
+def insertBy {β : Type} (p : Nat × β) : List (Nat × β) → List (Nat × β)
+  | [] => [p]
+  | q :: r => if p.1 < q.1 then p :: q :: r else if p.1 = q.1 then q :: r else q :: insertBy p r
+
+def sortBy {β : Type} (l : List (Nat × β)) : List (Nat × β) := l.foldr insertBy []
+
+mutual
+def showDesc : CDesc → String
+  | .mk nm k inst cls =>
+    "[" ++ toString nm ++ ":" ++ showKind k ++ ":" ++ showInsts inst ++ ":" ++
+      showList (fun (p : Name × Val) => toString p.1 ++ "=" ++ showAtomVal p.2) (sortAttrs cls) ++ "]"
+def showInsts : List (Name × CDesc) → String
+  | [] => "-"
+  | (a, d) :: r => toString a ++ "=" ++ showDesc d ++ (match r with | [] => "" | _ => "+" ++ showInsts r)
+end
+
+/-- The description of class `c` of the module, `dict_inst` in ascending attribute-name order. -/
+def classText (m : Module) (c : ClsId) : String :=
+  let ct := m.classes.map (fun ci => { ci with dictInst := sortBy ci.dictInst })
+  match describe ct m.names (m.classes.length + 1) c with
+  | some d => showDesc d
+  | none => "?" ++ toString c
+
+/-- Identity-free nested term with class descriptions; objects below `n0` are printed as `o<oid>`. -/
+def descDump (m : Module) (objs : Oid → Option Obj) (n0 : Nat) : Nat → Val → String
+  | _, .atom a => "a" ++ toString a
+  | 0, .ref x => "deep" ++ toString x
+  | f + 1, .ref x =>
+    if x < n0 then "o" ++ toString x
+    else match objs x with
+      | none => "u" ++ toString x
+      | some o =>
+        let sv := descDump m objs n0 f
+        "<" ++ classText m o.cls ++ "/" ++ showBool o.mutable ++ "/" ++ showList sv o.items ++ "/" ++
+          showList (fun (p : Name × Val) => toString p.1 ++ "=" ++ sv p.2) (sortAttrs o.attrs) ++ ">"
+
+structure HSt where
+  m : Module
+  st : State
+  slots : List (Nat × Oid)
+  pickles : List Pickle
+  out : List String
+
+def parseBuiltin (s : String) : Option (Name × ClassInfo) :=
+  match s.splitOn "/" with
+  | [n, k] => do
+      let n ← n.toNat?
+      let k ← parseKind k
+      pure (n, { kind := k, dictInst := [], dictCls := [] })
+  | _ => none
+
+def parseInstRef (m : Module) (nb : Nat) (s : String) : Option ClsId :=
+  if s.startsWith "@" then (s.drop 1).toString.toNat?.bind (fun n => lookup n m.bound)
+  else if s.startsWith "#" then (s.drop 1).toString.toNat?.bind (fun i => if i < nb then some i else none)
+  else none
+
+def parseItem (slots : List (Nat × Oid)) (s : String) : Option Val :=
+  if s.startsWith "a" then (s.drop 1).toString.toInt?.map Val.atom
+  else if s.startsWith "s" then (s.drop 1).toString.toNat?.bind (fun k => (lookup k slots).map Val.ref)
+  else none
+
+def setSlotOf (slots : List (Nat × Oid)) (k : Nat) (x : Oid) : List (Nat × Oid) :=
+  (k, x) :: slots.filter (fun p => p.1 != k)
+
+def histStep (nb : Nat) (h : HSt) (op : String) : Option HSt :=
+  match op.splitOn "/" with
+  | ["c", name, kind, inst, cls] => do
+      let name ← name.toNat?
+      let k ← parseKind kind
+      let inst ← parseList (parsePair (parseInstRef h.m nb)) inst
+      let cls ← parseList (parsePair parseInt) cls
+      pure { h with m := (metaCreate h.m name
+        { kind := k, dictInst := inst, dictCls := cls.map (fun p => (p.1, Val.atom p.2)) }).1 }
+  | ["d", name] => do
+      let name ← name.toNat?
+      pure { h with m := unbind h.m name }
+  | ["o", slot, cls, items] => do
+      let slot ← slot.toNat?
+      let c ← parseInstRef h.m nb cls
+      let items ← parseList (parseItem h.slots) items
+      let (st', x) ← create h.m.classes h.st c items
+      pure { h with st := st', slots := setSlotOf h.slots slot x }
+  | ["n", slot, name, items] => do
+      let slot ← slot.toNat?
+      let name ← name.toNat?
+      let c ← lookup name h.m.bound
+      let items ← parseList (parseItem h.slots) items
+      let (st', x) ← create h.m.classes h.st c items
+      pure { h with st := st', slots := setSlotOf h.slots slot x }
+  | ["s", slot, attr, items] => do
+      let slot ← slot.toNat?
+      let attr ← attr.toNat?
+      let items ← parseList (parseItem h.slots) items
+      let x ← lookup slot h.slots
+      let o ← h.st.objs x
+      match lookup attr o.attrs with
+      | some (.ref y) => do
+          let oy ← h.st.objs y
+          pure { h with st := { h.st with objs := write h.st.objs y { oy with items := items } } }
+      | _ => none
+  | ["v", slot, attr, val] => do
+      let slot ← slot.toNat?
+      let attr ← attr.toNat?
+      let v ← parseItem h.slots val
+      let x ← lookup slot h.slots
+      let o ← h.st.objs x
+      pure { h with st := { h.st with objs := write h.st.objs x { o with attrs := dictSet attr v o.attrs } } }
+  | ["p", slot] => do
+      let slot ← slot.toNat?
+      let x ← lookup slot h.slots
+      let P ← dumpP h.m nb h.st.objs (h.st.next + 2) (.ref x)
+      pure { h with pickles := h.pickles ++ [P] }
+  | ["l", k] => do
+      let k ← k.toNat?
+      let P ← h.pickles[k]?
+      let (m'', objs', next', v') ← loadP h.m P h.st.objs h.st.next
+      pure { h with m := m'', st := { objs := objs', next := next', memo := [] },
+                    out := h.out ++ [descDump m'' objs' h.st.next (next' + 2) v'] }
+  | _ => none
+
+def histRun (nb : Nat) : HSt → List String → Option HSt
+  | h, [] => some h
+  | h, op :: ops =>
+    match histStep nb h op with
+    | none => none
+    | some h' => histRun nb h' ops
+
+/-! ### `gp`: node objects -/
+
+def parseOptInt (s : String) : Option (Option Int) :=
+  if s = "-" then some none else s.toInt?.map some
+
+def parseNode (s : String) : Option Gp.Node :=
+  match s.splitOn "/" with
+  | ["P", a, b, c, d, e] => do
+      let a ← parseOptInt a; let b ← parseOptInt b; let c ← parseOptInt c
+      let d ← parseOptInt d; let e ← parseOptInt e
+      pure (.prim a b c d e)
+  | ["T", a, b, c, d] => do
+      let a ← parseOptInt a; let b ← parseOptInt b; let c ← parseOptInt c; let d ← parseOptInt d
+      pure (.term a b c d)
+  | _ => none
+
+def parsePairI {β : Type} (p : String → Option β) (s : String) : Option (Int × β) :=
+  match s.splitOn "=" with
+  | [k, v] => do let k ← k.toInt?; let v ← p v; pure (k, v)
+  | _ => none
+
+def showOptInt : Option Int → String
+  | none => "-"
+  | some a => toString a
+
+def showNode : Gp.Node → String
+  | .prim a b c d e => "P/" ++ "/".intercalate [showOptInt a, showOptInt b, showOptInt c, showOptInt d, showOptInt e]
+  | .term a b c d => "T/" ++ "/".intercalate [showOptInt a, showOptInt b, showOptInt c, showOptInt d]
+
 def handle : List String → String
   | ["clone", cts, hs, root, ks] =>
     match (do let ct ← parseCt cts; let h ← parseHeap hs; let v ← parseVal root; let k ← ks.toNat?
@@ -170,6 +349,36 @@ def handle : List String → String
         match clone ct (ct.length + 3) st.objs st.next (Val.ref x) with
         | some (objs, next, v') => graphDump objs st.next (next + 2) [v']
         | none => "fail"
+    | none => "bad-op"
+  | "hist" :: bs :: ops =>
+    match (if bs = "-" then some [] else (bs.splitOn ";").mapM parseBuiltin) with
+    | some bl =>
+      let m0 : Module := { classes := bl.map (·.2), bound := [], names := bl.map (·.1) }
+      let h0 : HSt := { m := m0, st := { objs := fun _ => none, next := 0, memo := [] }, slots := [],
+                        pickles := [], out := [] }
+      match histRun bl.length h0 ops with
+      | some h =>
+        ";".intercalate (h.out ++ ["NS:" ++ showList (fun (p : Name × ClsId) =>
+          toString p.1 ++ "=" ++ classText h.m p.2) (sortBy h.m.bound)])
+      | none => "bad-op"
+    | none => "bad-op"
+  | ["gp", nodes, args, mapping, hist, tree] =>
+    match (do let ns ← (if nodes = "-" then some [] else (nodes.splitOn ";").mapM parseNode)
+              let a ← parseList parseInt args
+              let mp ← parseList (parsePairI parseNat) mapping
+              let hs ← (if hist = "-" then some [] else
+                          (hist.splitOn ";").mapM (parseList (parsePairI parseInt)))
+              let t ← parseList parseNat tree
+              pure (ns, a, mp, hs, t)) with
+    | some (ns, a, mp, hs, t) =>
+      match Gp.renameHistory { nodes := ns, arguments := a, mapping := mp } hs with
+      | none => "fail"
+      | some ps =>
+        match Gp.treeRoundTrip ps t with
+        | none => "fail"
+        | some loaded =>
+          showList toString ps.arguments ++ "|" ++ showList (fun (p : Int × Nat) => toString p.1) ps.mapping
+            ++ "|" ++ (if loaded.isEmpty then "-" else ";".intercalate (loaded.map showNode))
     | none => "bad-op"
   | ["tb", args, kw, ndec, cargs, ckw] =>
     match (do let a ← parseList parseInt args; let k ← parseKw kw; let n ← ndec.toNat?
